@@ -10,6 +10,7 @@
 #include <nitro/log/attribute/severity.hpp>
 #include <nitro/log/attribute/tag.hpp>
 #include <nitro/log/attribute/timestamp.hpp>
+#include <nitro/log/filter/null_filter.hpp>
 #include <nitro/log/filter/severity_filter.hpp>
 #include <nitro/log/log.hpp>
 #include <nitro/log/sink/null.hpp>
@@ -120,5 +121,17 @@ void uses()
     L::trace() << "t" << [] { return std::string("lazy"); }; // [C10 m6] lowest severity, whatever the minimum
     auto t = L::trace();
     t << 1 << lazy_fn; // [C10 m7] lowest severity named stream
+}
+
+// record layouts with only one of the attributes a statement sets itself: both are valid records (a timestamp is all the logger asks for)
+using ts_attr = nitro::log::timestamp_clock_attribute<std::chrono::system_clock>;
+using record_tag_only = nitro::log::record<nitro::log::message_attribute, ts_attr, nitro::log::tag_attribute>;
+using record_sev_only = nitro::log::record<nitro::log::message_attribute, nitro::log::severity_attribute, ts_attr>;
+template <typename R>
+using flt_null = nitro::log::filter::null_filter<R>;
+void layouts()
+{
+    nitro::log::logger<record_tag_only, fmt_t, sink_t, flt_null>::fatal("tag") << "x"; // [C10 m8] a record with a tag and no severity can be logged
+    nitro::log::logger<record_sev_only, fmt_t, sink_t, flt>::fatal() << "x"; // [C10 m9] a record with a severity and no tag can be logged
 }
 } // namespace
